@@ -3,9 +3,11 @@ Theorems: Props/C19.lean over an INDEPENDENT Lean loader (Model/Loader.lean, wri
 extraction is an order-preserving filterMap that fails on an unparsable member; Data/Hash concatenation = stream order when no Hash
 precedes a Data line; segments are the input entries permuted into builtin order, unknown name => error; the 340 dynamic-parameter
 keys sorted = the verifier's struct field order (translated from dynamic.rs); checked narrowing (difficulty <= 255, nonce < 2^64);
-config derivation. PARTIAL: the regex engine and serde are not modelled — they are covered only by this differential test.
+config derivation; the prover messages tile the proof (byte ranges contiguous from 0, 32 bytes per value) and there is one commitment
+per inner FRI layer, numbered in order. PARTIAL: the regex engine and serde are not modelled — they are covered only by this differential test.
 Tie: REAL parse (proof_parser sources) + REAL TransformTo (cli/src/transform.rs) vs the Lean loader, token for token, on the 25 shipped
-files and on edited copies (value changes, reordered / removed / duplicated annotation lines, unknown segment names, bad hex, difficulty
+files and on edited copies (value changes; reordered / removed / duplicated / range-shifted / path-garbled annotation lines, each also with the
+ranges renumbered so that the edit is a different WELL-FORMED file; a deep-FRI file; messages of a layer beyond the step list; unknown segment names, bad hex, difficulty
 255/256/286, nonce 0 / 2^64 / 2^64+5, missing keys); oracle: never panic; truncating edits => error; accepted edits verify iff unchanged."""
 import copy, glob, json, os, re
 import framework as fw
@@ -17,8 +19,9 @@ LEAN_TARGETS = ['Swiftness.Props.C19']
 TRANSLATOR_PARTS = ('consts', 'ast')
 BUILDS = {'quick': [('k160', 'stone5', 'full', 'all_layouts', 'parser')], 'thorough': [('k160', 'stone5', 'full', 'all_layouts', 'parser'), ('b248', 'stone6', 'full', 'all_layouts', 'parser')]}
 RULE = ('all 25 shipped files (parse + convert, compared token for token with the Lean loader) and, from 3 (quick) / all (thorough) of them, edited '
-        'copies: one hex digit changed in each annotation class; two adjacent lines of a class swapped; one line removed / duplicated; a Hash '
-        'line moved before the Data lines; difficulty in {0,20,255,256,286,2^32}; nonce in {0,1,2^64-1,2^64,2^64+5}; unknown / missing / extra '
+        'copies: one hex digit changed in each annotation class; two lines of a class swapped / one line removed / duplicated / its byte range shifted / its path garbled '
+        '(errors since the byte ranges tile the proof), and the same edits with the ranges renumbered (well-formed files: loader decides); a Hash '
+        'line moved before the Data lines (with / without renumbering); a deep-FRI file with 12 single-step layers; a message of a layer beyond the step list; well-formed continuous pages in the public memory; difficulty in {0,20,255,256,286,2^32}; nonce in {0,1,2^64-1,2^64,2^64+5}; unknown / missing / extra '
         'memory segment; bad hex in a public-memory value, in the OODS list, in a Hash; n_steps not a power of two / 0; empty fri_step_list; '
         'huge steps; layout name unknown; public_memory empty; annotation list empty. non-trivial = edited.')
 ASSUMPTIONS = ['regex and serde behaviour are exercised, not modelled', 'continuous page headers are dropped by the CLI conversion (recorded observation)']
@@ -44,6 +47,17 @@ CLASSES = {'oods': r'P->V.*OODS values: : Field Elements', 'commit': r'P->V.*Ori
            'fri1-hash': r'P->V.*Decommitment/Layer 1: For node .*Hash\('}
 
 
+def retile(k):
+    """renumber the byte ranges of the prover messages so that they tile the proof again (32 bytes per value)"""
+    nxt = 0
+    for i, l in enumerate(k['annotations']):
+        m = re.match(r'P->V\[\d+:\d+\]: (.*)$', l)
+        if not m: continue
+        n = len(re.findall(r'0x[0-9a-fA-F]+', l.rsplit('(', 1)[-1])) or 1
+        k['annotations'][i] = f'P->V[{nxt}:{nxt + 32 * n}]: {m.group(1)}'
+        nxt += 32 * n
+
+
 def edits(rng, j, tag):
     """yield (name, edited json, expectation) ; expectation in {'ok','err','any'}"""
     def E(name, f, expect='any'):
@@ -63,18 +77,33 @@ def edits(rng, j, tag):
             h = m.group(1); pos = rng.below(len(h)); nd = format((int(h[pos], 16) + 1) % 16, 'x')
             k['annotations'][i] = l[:m.start(1) + pos] + nd + l[m.start(1) + pos + 1:]
         out.append(E(f'{cname}-digit', digit, 'ok'))
-        out.append(E(f'{cname}-removed', lambda k, i=i: k['annotations'].pop(i)))
-        out.append(E(f'{cname}-duplicated', lambda k, i=i: k['annotations'].insert(i, k['annotations'][i])))
+        # the byte ranges of the prover messages tile the proof: a removed / duplicated / moved line is an ERROR; the same edit with the
+        # ranges renumbered is a different well-formed file (what it converts to is decided by the independent loader)
+        out.append(E(f'{cname}-removed', lambda k, i=i: k['annotations'].pop(i), 'err'))
+        out.append(E(f'{cname}-duplicated', lambda k, i=i: k['annotations'].insert(i, k['annotations'][i]), 'err'))
+        out.append(E(f'{cname}-removed-retiled', lambda k, i=i: (k['annotations'].pop(i), retile(k))))
+        out.append(E(f'{cname}-duplicated-retiled', lambda k, i=i: (k['annotations'].insert(i, k['annotations'][i]), retile(k))))
         if len(idx) >= 2:
             a, b = idx[0], idx[1]
-            out.append(E(f'{cname}-swapped', lambda k, a=a, b=b: k['annotations'].__setitem__(slice(a, b + 1), [k['annotations'][b]] + k['annotations'][a + 1:b] + [k['annotations'][a]]), 'ok'))
+            sw = lambda k, a=a, b=b: k['annotations'].__setitem__(slice(a, b + 1), [k['annotations'][b]] + k['annotations'][a + 1:b] + [k['annotations'][a]])
+            if j['annotations'][a] != j['annotations'][b]:
+                out.append(E(f'{cname}-swapped', sw, 'err'))
+            out.append(E(f'{cname}-swapped-retiled', lambda k, sw=sw: (sw(k), retile(k)), 'err' if cname == 'fri-root' else 'ok'))   # layer commitments carry their layer number: out of order is malformed
+        def rng_shift(k, i=i):
+            m = re.match(r'P->V\[(\d+):(\d+)\]', k['annotations'][i])
+            k['annotations'][i] = f'P->V[{int(m.group(1)) + 1}:{int(m.group(2)) + 1}]' + k['annotations'][i][m.end():]
+        out.append(E(f'{cname}-range-shifted', rng_shift, 'err'))
+        def path_garbled(k, i=i):
+            k['annotations'][i] = k['annotations'][i].replace('/cpu air/STARK/', '/cpu air/STARK/X', 1)
+        out.append(E(f'{cname}-path-garbled', path_garbled, 'err'))
         def badhex(k, i=i):
             l = k['annotations'][i]; m = list(re.finditer(r'0x([0-9a-f]+)', l))[-1]
             k['annotations'][i] = l[:m.start(1)] + 'zz' + l[m.start(1) + 2:]
         out.append(E(f'{cname}-badhex', badhex, 'err'))
     hs = ann_idx(j, CLASSES['trace0-hash']); ds = ann_idx(j, r'P->V.*Layer 0/Virtual Oracle/Trace 0: .*Data\(')
     if hs and ds:
-        out.append(E('hash-before-data', lambda k: k['annotations'].insert(ds[0], k['annotations'].pop(hs[-1]))))
+        out.append(E('hash-before-data', lambda k: k['annotations'].insert(ds[0], k['annotations'].pop(hs[-1])), 'err'))
+        out.append(E('hash-before-data-retiled', lambda k: (k['annotations'].insert(ds[0], k['annotations'].pop(hs[-1])), retile(k))))
     for b in [0, 20, 255, 256, 286, 1 << 32]:
         out.append(E(f'powbits={b}', lambda k, b=b: k['proof_parameters']['stark']['fri'].__setitem__('proof_of_work_bits', b), 'err' if b > 255 else 'ok'))
     pw = ann_idx(j, CLASSES['pow'])
@@ -143,7 +172,21 @@ def edits(rng, j, tag):
             new.append(l)
         if not (done_c and done_d): raise KeyError('no FRI layer lines')
         k['annotations'] = new
+        retile(k)
     out.append(E('deep-fri-12-layers', deep, 'ok'))
+    def extra_layer(k):     # messages of a FRI layer the step list does not have: nobody consumes them
+        nl = len(k['proof_parameters']['stark']['fri']['fri_step_list'])
+        k['annotations'].append(f'P->V[0:32]: /cpu air/STARK/FRI/Decommitment/Layer {nl + 3}: Row 1, Column 0: Field Element(0x5)')
+        retile(k)
+    out.append(E('fri-layer-beyond-step-list', extra_layer, 'err'))
+    # the LAST prover message has no successor whose range could expose a gap: damage to it must be caught by the line check itself
+    lastpv = lambda k: max(i for i, l in enumerate(k['annotations']) if l.startswith('P->V'))
+    out.append(E('last-message-paren-lost', lambda k: k['annotations'].__setitem__(lastpv(k), k['annotations'][lastpv(k)].rstrip(')')), 'err'))
+    out.append(E('last-message-kind-misspelt', lambda k: k['annotations'].__setitem__(lastpv(k), k['annotations'][lastpv(k)].replace('Hash(', 'Hsah(').replace('Field Element(', 'Field Elemnt(')), 'err'))
+    out.append(E('last-message-range-dash', lambda k: k['annotations'].__setitem__(lastpv(k), re.sub(r'^P->V\[(\d+):(\d+)\]', r'P->V[\1-\2]', k['annotations'][lastpv(k)])), 'err'))
+    firstpv = lambda k: min(i for i, l in enumerate(k['annotations']) if l.startswith('P->V'))
+    out.append(E('first-message-paren-lost', lambda k: k['annotations'].__setitem__(firstpv(k), k['annotations'][firstpv(k)].rstrip(')')), 'err'))
+    out.append(E('trailing-message-removed', lambda k: k['annotations'].pop(max(i for i, l in enumerate(k['annotations']) if l.startswith('P->V'))), 'any'))
     out.append(E('log_n_cosets=2^32-1', lambda k: k['proof_parameters']['stark'].__setitem__('log_n_cosets', (1 << 32) - 1), 'err'))
     return [e for e in out if e]
 
